@@ -275,6 +275,7 @@ package stats
 //@   assigns nothing
 
 //@ func Mean
+//@   deterministic
 //@   model real
 //@   ensures [empty] len(xs) == 0 ==> isnan(result)
 //@   ensures [def]   len(xs) > 0 ==> result * len(xs) == fsum(xs, len(xs))
@@ -282,6 +283,7 @@ package stats
 //@   assigns nothing
 
 //@ func Variance
+//@   deterministic
 //@   model real
 //@   ensures [empty] len(xs) == 0 ==> isnan(result)
 //@   ensures [one]   len(xs) == 1 ==> result == 0
@@ -290,6 +292,7 @@ package stats
 //@   assigns nothing
 
 //@ func StdDev
+//@   deterministic
 //@   model real
 //@   ensures [def] len(xs) >= 2 ==> result == sqrt((fsumsq(xs, len(xs)) - fsum(xs, len(xs)) * fsum(xs, len(xs)) / len(xs)) / (len(xs) - 1))
 //@   assigns nothing
@@ -616,4 +619,56 @@ package stats
 //@   ensures [p-less]   err == nil && alt == LocationLess ==> res.P == TDist{res.DoF}.CDF(res.T)
 //@   ensures [p-greater] err == nil && alt == LocationGreater ==> res.P == 1 - TDist{res.DoF}.CDF(res.T)
 //@   ensures [p-differs] err == nil && alt == LocationDiffers ==> res.P == 2 * (1 - TDist{res.DoF}.CDF(abs(res.T)))
+//@   assigns nothing
+
+// Restatement of newTTestResult for callers in model real (finite t, dof).
+//@ assume func newTTestResult@real
+//@   model real
+//@   trusted restatement for finite arguments of the contract proved in model xreal
+//@   ensures result != nil && fresh(result) && result.N1 == n1 && result.N2 == n2 && result.T == t && result.DoF == dof && result.AltHypothesis == alt
+//@   assigns nothing
+
+//@ func PairedTTest
+//@   model real
+//@   results res, err
+//@   ensures [err-mismatch] len(x1) != len(x2) <==> err == ErrMismatchedSamples
+//@   ensures [err-size]     len(x1) == len(x2) && len(x1) <= 1 ==> err == ErrSampleSize
+//@   ensures [fields]       err == nil ==> res != nil && res.N1 == len(x1) && res.N2 == len(x2) && res.DoF == len(x1) - 1 && res.AltHypothesis == alt
+//@   check @ret4 [stat] forall k in 0..len(x1) :: diff[k] == x1[k] - x2[k]
+//@   check @ret4 [t]    sd == StdDev(diff) && res.T == (Mean(diff) - μ0) * sqrt(len(x1)) / StdDev(diff)
+//@   loop 1 (i) invariant len(diff) == len(x1) && fresh(diff) && (forall k in 0..i :: diff[k] == x1[k] - x2[k])
+//@   assigns nothing
+
+// ---------------------------------------------------------------------
+// MeanCI (C04). Model xreal (infinite half-width, NaN mean).
+
+//@ assume func Mean@xreal
+//@   deterministic
+//@   model xreal
+//@   trusted restatement of the contract proved in model real (finite data)
+//@   ensures (len(xs) == 0 ==> isnan(result)) && (len(xs) > 0 ==> isfinite(result))
+//@   assigns nothing
+//@ assume func StdDev@xreal
+//@   deterministic
+//@   model xreal
+//@   trusted restatement of the contract proved in model real (finite data)
+//@   ensures true
+//@   assigns nothing
+
+// The generic inverse CDF is used here as an opaque deterministic function
+// (its own contract is C07).
+//@ assume func InvCDF
+//@   deterministic
+//@   model xreal
+//@   trusted generic bisection inverse of a CDF (C07); only determinism is used here
+//@   ensures true
+//@   assigns nothing
+
+//@ func MeanCI
+//@   model xreal
+//@   ensures [mean]     mean == Mean(xs)
+//@   ensures [zero]     confidence <= 0 ==> lo == mean && hi == mean
+//@   ensures [infinite] !(confidence <= 0) && (confidence >= 1 || len(xs) <= 1) && isfinite(mean) ==> lo == ninf && hi == inf
+//@   ensures [empty]    len(xs) == 0 ==> isnan(mean)
+//@   ensures [width]    !(confidence <= 0) && !(confidence >= 1 || len(xs) <= 1) ==> lo == mean - (-InvCDF(TDist{len(xs) - 1})((1 - confidence) / 2)) * StdDev(xs) / sqrt(len(xs)) && hi == mean + (-InvCDF(TDist{len(xs) - 1})((1 - confidence) / 2)) * StdDev(xs) / sqrt(len(xs))
 //@   assigns nothing
